@@ -198,11 +198,48 @@ def same_dfa_unordered(x, y):
             and sexp.dump(x.sx[4]) == sexp.dump(y.sx[4]))
 
 
+def rust_eq(x, y):
+    """`impl PartialEq for DFA` as it is: transitions and accepting states as maps/sets, inputs as
+    an IndexSet, whose equality ignores the ORDER of the inputs (although ids are indices)."""
+    return (x.start == y.start and x.trans == y.trans and x.acc == y.acc
+            and len(x.inputs) == len(y.inputs)
+            and sorted(sexp.dump(i) for i in x.inputs) == sorted(sexp.dump(i) for i in y.inputs))
+
+
+KNOWN_MERGE = 'subdfa_merged_by_unordered_inputs'
+WITNESS_MERGE = b'cmd a[b] x | b[a] y;\n'
+
+
+def probe_merge(exe, res, n):
+    """Known finding: DFAInternPool merges two within-word automata whose input pools are
+    permutations when their randomly seeded hashes collide in 7 bits (p = 1/128 per run).
+    Dump the witness n times (every case builds fresh, differently seeded pools)."""
+    dumps = impl.dump(exe, [WITNESS_MERGE] * n, ['check', 'raw'], ['bash'])
+    by = {}
+    for d in dumps:
+        by.setdefault(d['bash'].get('RAW', '?'), []).append(d['bash'])
+    res.extra['merge_probe'] = dict(runs=n, distinct_raw=len(by), counts=sorted(len(v) for v in by.values()))
+    if len(by) < 2:
+        return
+    minority = min(by.values(), key=len)[0]
+    majority = max(by.values(), key=len)[0]
+    expr = sexp.dump(sexp.parse(minority['CHECK'])[2])
+    outs = model.run(['equiv %s %s %d' % (sexp.dump(sexp.parse(st['RAW'])[1]), expr, EQUIV_FUEL)
+                      for st in (minority, majority)])
+    res.violations.append(report.Violation(
+        'C02: the same grammar compiles to two different automata from run to run; the rarer one is judged %s, the usual one %s'
+        % (outs[0], outs[1]),
+        dict(kind='spec-judgement', grammar=WITNESS_MERGE.decode(), shell='bash', runs=n,
+             counts=res.extra['merge_probe']['counts'], rare_raw=minority.get('RAW'), usual_raw=majority.get('RAW'),
+             judge_rare=outs[0], judge_usual=outs[1]),
+        cls=KNOWN_MERGE))
+
+
 # ---------------------------------------------------------------------------------------------
 
 class Case:
     __slots__ = ('gi', 'sh', 'kind', 'text', 'st', 'expr', 'regex', 'pool', 'subexprs', 'raw', 'min',
-                 'subraw', 'submap', 'fail', 'tie_fail', 'accepted', 'req', 'notes')
+                 'subraw', 'submap', 'fail', 'tie_fail', 'accepted', 'req', 'notes', 'merged')
 
 
 def run(ctx, res):
@@ -224,7 +261,7 @@ def run(ctx, res):
                 continue
             c = Case()
             c.gi, c.sh, c.kind, c.text, c.st = gi, sh, kind, text, dumps[gi][sh]
-            c.fail, c.tie_fail, c.accepted, c.req, c.notes = [], [], False, {}, []
+            c.fail, c.tie_fail, c.accepted, c.req, c.notes, c.merged = [], [], False, {}, [], []
             cases.append(c)
 
     # ---- phase 1 requests: check tie, regex tie
@@ -315,6 +352,11 @@ def run(ctx, res):
             ks = [k for k, d in enumerate(rawsubs) if d is not None and dfa_plain(d) == dfa_plain(smin)]
             if not ks:
                 ks = [k for k, d in enumerate(rawsubs) if d is not None and same_dfa_unordered(d, smin)]
+            if not ks:
+                # known finding: interned as equal to an automaton whose inputs are a permutation
+                ks = [k for k, d in enumerate(rawsubs) if d is not None and rust_eq(d, smin)]
+                if ks:
+                    c.merged.append((rid, ks[0]))
             if not ks:
                 c.tie_fail.append(('raw', 'minimised automaton of within-word regex %d is not among RAW.subdfas' % rid))
                 continue
@@ -417,7 +459,13 @@ def run(ctx, res):
             rejected += 1
         replay = dict(grammar=c.text.decode('latin-1'), shell=c.sh,
                       impl={k: v[:3000] for k, v in c.st.items()})
-        if c.fail:
+        if c.merged:
+            replay.update(kind='spec-judgement', failures=c.fail, merged=c.merged,
+                          note='within-word automaton replaced by one with permuted inputs (nondeterministic)')
+            res.violations.append(report.Violation(
+                'C02: within-word regex %d got the automaton of another one (inputs permuted)%s'
+                % (c.merged[0][0], '; ' + c.fail[0][:200] if c.fail else ''), replay, cls=KNOWN_MERGE))
+        elif c.fail:
             replay.update(kind='spec-judgement', failures=c.fail, ties=[t[0] for t in c.tie_fail])
             res.violations.append(report.Violation('C02: ' + c.fail[0][:300], replay))
         elif c.tie_fail:
@@ -433,6 +481,7 @@ def run(ctx, res):
                                     raw_states=len(c.raw.states()),
                                     judge_raw=outs2[c.req['equiv-raw']],
                                     judge_min=outs2[c.req['equiv-min']] if 'equiv-min' in c.req else None))
+    probe_merge(exe, res, 1500 if ctx['tier'] == 'quick' else 6000)
     res.nontrivial = len(nontrivial)
     res.extra['stage'] = 'regex (Regex::from_valid_grammar), raw (DFA::from_regex_raw), min, within-word automata'
     res.extra['judged_accepted'] = judged
